@@ -87,11 +87,13 @@ struct Case {
     nonkey: NonKey,
     partitioner: Option<&'static str>,
     global_spec: bool,
+    /// explicit component bytes (constructed preimages); empty = generated from `lens`
+    explicit: Vec<Vec<u8>>,
 }
 
 impl Case {
     fn to_json(&self) -> Value {
-        json!({"leg":"keys","markers":self.m,"pk_marker":self.pk_marker,"lens":self.lens,"nonkey":format!("{:?}", self.nonkey),"partitioner":self.partitioner,"global_spec":self.global_spec})
+        json!({"leg":"keys","markers":self.m,"pk_marker":self.pk_marker,"lens":self.lens,"nonkey":format!("{:?}", self.nonkey),"partitioner":self.partitioner,"global_spec":self.global_spec,"explicit_hex":self.explicit.iter().map(|c| vcore::hex(c)).collect::<Vec<_>>()})
     }
     fn from_json(v: &Value) -> Option<Case> {
         let us = |k: &str| -> Option<Vec<usize>> { v[k].as_array()?.iter().map(|x| x.as_u64().map(|x| x as usize)).collect() };
@@ -111,6 +113,7 @@ impl Case {
                 Some(_) => Some(MURMUR),
             },
             global_spec: v["global_spec"].as_bool().unwrap_or(true),
+            explicit: v["explicit_hex"].as_array().map(|a| a.iter().map(|x| vcore::unhex(x.as_str().unwrap_or(""))).collect()).unwrap_or_default(),
         })
     }
 }
@@ -155,7 +158,7 @@ fn check(r: &Report, w: &Worlds, c: &Case, verbose: bool) {
         }
     };
     // bound values in marker order
-    let comps: Vec<Vec<u8>> = (0..k).map(|j| component(j, c.lens[j])).collect();
+    let comps: Vec<Vec<u8>> = if c.explicit.is_empty() { (0..k).map(|j| component(j, c.lens[j])).collect() } else { c.explicit.clone() };
     let mut values: Vec<MaybeUnset<Option<Vec<u8>>>> = Vec::with_capacity(c.m);
     for i in 0..c.m {
         match c.pk_marker.iter().position(|p| *p == i) {
@@ -254,7 +257,7 @@ fn main() {
     let small = [0usize, 1, 15, 16, 17];
     let mut cases: Vec<Case> = Vec::new();
     // not token aware: no pk indexes
-    cases.push(Case { m: 2, pk_marker: vec![], lens: vec![], nonkey: NonKey::Valued, partitioner: None, global_spec: true });
+    cases.push(Case { m: 2, pk_marker: vec![], lens: vec![], nonkey: NonKey::Valued, partitioner: None, global_spec: true, explicit: vec![] });
     let mut n_arr = 0u64;
     for k in 1..=kmax {
         for m in k..=mmax {
@@ -295,7 +298,7 @@ fn main() {
                     for (ni, nk) in nonkeys.iter().enumerate() {
                         // partitioner: default for all; explicit Murmur3 string and per-column table spec on a rotating subset
                         let part = if (li + ni + ai) % 7 == 3 { Some(MURMUR) } else { None };
-                        cases.push(Case { m, pk_marker: arr.clone(), lens: lens.clone(), nonkey: *nk, partitioner: part, global_spec: (li + ai) % 5 != 2 });
+                        cases.push(Case { m, pk_marker: arr.clone(), lens: lens.clone(), nonkey: *nk, partitioner: part, global_spec: (li + ai) % 5 != 2, explicit: vec![] });
                     }
                 }
                 // 65535 (largest legal) and 65536 (must be refused in a composite key) in each position
@@ -304,7 +307,7 @@ fn main() {
                         for big in [65535usize, 65536] {
                             let mut lens: Vec<usize> = (0..k).map(|j| small[(j + ai) % small.len()]).collect();
                             lens[big_at] = big;
-                            cases.push(Case { m, pk_marker: arr.clone(), lens, nonkey: NonKey::Valued, partitioner: None, global_spec: true });
+                            cases.push(Case { m, pk_marker: arr.clone(), lens, nonkey: NonKey::Valued, partitioner: None, global_spec: true, explicit: vec![] });
                         }
                     }
                 }
@@ -316,11 +319,35 @@ fn main() {
         for p in 0..m {
             for len in [0usize, 7, 8, 15, 16, 17] {
                 for nk in [NonKey::Valued, NonKey::Null] {
-                    cases.push(Case { m, pk_marker: vec![p], lens: vec![len], nonkey: nk, partitioner: Some(CDC), global_spec: true });
+                    cases.push(Case { m, pk_marker: vec![p], lens: vec![len], nonkey: nk, partitioner: Some(CDC), global_spec: true, explicit: vec![] });
                 }
             }
         }
     }
+    // constructed preimages: single-column keys (16 bytes) and two-component composite keys (framed
+    // stream of 32 bytes) whose RAW Murmur3 hash is exactly i64::MIN (-> token i64::MAX) / boundary values
+    let mut raw_min_cases = 0u64;
+    for target in [i64::MIN, i64::MIN + 1, i64::MAX, -1, 0] {
+        for i in 0..r.tier().pick(8u64, 64u64) {
+            let single = cqlref::murmur3::invert_block16(target, (i + 3).wrapping_mul(0x9e37_79b9_7f4a_7c15)).to_vec();
+            let (a, b) = cqlref::murmur3::composite_preimage(target, i);
+            for part in [None, Some(MURMUR)] {
+                for m in 1..=3usize {
+                    for p in 0..m {
+                        cases.push(Case { m, pk_marker: vec![p], lens: vec![16], nonkey: NonKey::Valued, partitioner: part, global_spec: true, explicit: vec![single.clone()] });
+                    }
+                }
+                for arr in [vec![0usize, 1], vec![1, 0], vec![2, 0], vec![1, 3]] {
+                    let m = arr.iter().max().unwrap() + 1;
+                    cases.push(Case { m, pk_marker: arr, lens: vec![11, 15], nonkey: NonKey::Null, partitioner: part, global_spec: true, explicit: vec![a.clone(), b.clone()] });
+                }
+                if target == i64::MIN {
+                    raw_min_cases += 10;
+                }
+            }
+        }
+    }
+    r.counters.add("cases_with_raw_hash_exactly_i64_min", raw_min_cases);
     // thorough: a seeded sample of wide statements (k<=8 among m<=16), labelled sampled
     let mut sampled = 0u64;
     if thorough {
@@ -334,7 +361,7 @@ fn main() {
                 pos.swap(i, j);
             }
             let lens = (0..k).map(|_| [0usize, 1, 2, 15, 16, 17, 31, 32, 33, 70, 255, 256][rng.below(12) as usize]).collect();
-            cases.push(Case { m, pk_marker: pos[..k].to_vec(), lens, nonkey: [NonKey::Valued, NonKey::Null, NonKey::Unset, NonKey::Long][rng.below(4) as usize], partitioner: None, global_spec: rng.below(2) == 0 });
+            cases.push(Case { m, pk_marker: pos[..k].to_vec(), lens, nonkey: [NonKey::Valued, NonKey::Null, NonKey::Unset, NonKey::Long][rng.below(4) as usize], partitioner: None, global_spec: rng.below(2) == 0, explicit: vec![] });
             sampled += 1;
         }
     }
@@ -346,7 +373,7 @@ fn main() {
     let r_ref = &r;
     let w_ref = &w;
     vcore::par::for_each(jobs, 8, cases.into_iter(), |c| check(r_ref, w_ref, &c, false));
-    r.set_rule(&format!("E-ENUM. Real PreparedStatements from RESULT/Prepared body bytes (production parser + constructor; partitioner from the table's partitioner string in a real ClusterState). k=1..{kmax} key components among m=k..{mmax} bind markers in EVERY injective arrangement (positions x order); component lengths: all tuples over {{0,1,15,16,17}} for k<=2{} and rotating assignments otherwise, plus 65535 / 65536 in every position; non-key markers valued / NULL / unset / long; global and per-column table specs; CDC tables with a single key at every marker position. Oracles: compute_partition_key == len16|bytes|0 framing in KEY order (single column: raw bytes); calculate_token and ClusterState::compute_token == reference Murmur3/CDC token; 65536-byte component of a composite key refused. distinct_nontrivial = cases with a composite key whose marker order differs from key order or with interleaved non-key markers.", if thorough { " (k<=3 thorough)" } else { "" }));
+    r.set_rule(&format!("E-ENUM. Real PreparedStatements from RESULT/Prepared body bytes (production parser + constructor; partitioner from the table's partitioner string in a real ClusterState). k=1..{kmax} key components among m=k..{mmax} bind markers in EVERY injective arrangement (positions x order); component lengths: all tuples over {{0,1,15,16,17}} for k<=2{} and rotating assignments otherwise, plus 65535 / 65536 in every position; non-key markers valued / NULL / unset / long; global and per-column table specs; CDC tables with a single key at every marker position; constructed preimages (cqlref::murmur3::invert_block16 / composite_preimage): single-column 16-byte keys and two-component composite keys whose framed stream has RAW Murmur3 hash exactly i64::MIN (token must be i64::MAX), MIN+1, MAX, -1, 0. Oracles: compute_partition_key == len16|bytes|0 framing in KEY order (single column: raw bytes); calculate_token and ClusterState::compute_token == reference Murmur3/CDC token; 65536-byte component of a composite key refused. distinct_nontrivial = cases with a composite key whose marker order differs from key order or with interleaved non-key markers.", if thorough { " (k<=3 thorough)" } else { "" }));
     r.set_exhaustive(true);
     r.sample(json!({"markers":5,"pk_marker":[4,0,3],"meaning":"key component 0 bound by marker 4, component 1 by marker 0, component 2 by marker 3 (the repo's single shuffled unit test)"}));
     r.assume("PreparedStatement is obtained through hook H-PREPARED from response body bytes instead of Session::prepare against a mock node; the partitioner choice mirrors Session::extract_partitioner_name (6 lines) instead of calling it");
